@@ -140,7 +140,26 @@ func GenC12(seed uint64, i int) *world.Case {
 	anyKill := false
 	n := 2 + r.Intn(7)
 	for k := 0; k < n; k++ {
-		switch x := r.Intn(20); {
+		switch x := r.Intn(22); {
+		case x >= 20:
+			// A slow consumer: the Scanner is open and part-way through when the
+			// result is discarded (and, half of the time, consumed again by a later
+			// Func). The scan delivers exactly the rows, or reports an error.
+			id := h.pick()
+			other := []world.Step{{Op: "sleep", Dur: int64(time.Second)}, {Op: "discard", Of: id}}
+			if r.Chance(0.5) {
+				if st, ok := h.runOver(false); ok {
+					other = append(other, st)
+				}
+			}
+			c.Script = append(c.Script, world.Step{Op: "par", Par: [][]world.Step{
+				{{Op: "scan", Of: id, PauseAfterRows: r.Pick(1, 3, 40, 130, 300), PauseNs: int64(time.Duration(r.Pick(2, 5, 60)) * time.Second)}},
+				other,
+			}})
+			disturbed[id] = true
+			for _, o := range h.live {
+				disturbed[o] = true
+			}
 		case x < 4:
 			id := h.pick()
 			c.Script = append(c.Script, world.Step{Op: "scan", Of: id, MustSucceed: !disturbed[id] && !anyKill})
@@ -326,18 +345,7 @@ func C19(tier string, seed uint64) int {
 		Rule: "1-2 shared base results, then 2-5 concurrent client goroutines in one session (runs over the shared results through pipelined and redistributing operators, fresh runs, scans of shared results, optionally one client discarding a shared result), both executors, seeded virtual delays at RPC seams, in user functions and at the simhook yield points; oracle: every successful scan equals the reference of its program as if run alone, all steps succeed when nobody discards, no task has two Executor.Run calls in flight at once (yield-hook monitor), every client returns within 4h simulated; thorough tier re-runs a sample under the race detector (any race report with frames in /repo is a violation); distinct = distinct (ordered seam-event sequence, per-step digests)",
 		Gen: func(i int) *world.Case { return GenC19(seed, i) },
 		N:   1000,
-		Judge: func(c *world.Case, o *world.Outcome) string {
-			if cl := violationClass(o); cl != "" {
-				return cl
-			}
-			if o.Extra != nil {
-				if rr, ok := o.Extra["race_report"].(string); ok && strings.Contains(rr, "/repo/") {
-					o.Detail = "data race reported by the race detector (reports do not replay by seed; the case does): " + firstLines(rr, 40)
-					return "data-race"
-				}
-			}
-			return ""
-		},
+		Judge: raceJudge,
 	}
 	if tier != "quick" {
 		// The thorough tier runs every third case under the race detector.
@@ -357,6 +365,21 @@ func C19(tier string, seed uint64) int {
 		b.Budget = 20 * time.Minute
 	}
 	return b.Run()
+}
+
+// raceJudge is the default judge plus: a report of the race detector (race
+// build only) with frames in /repo is a violation.
+func raceJudge(c *world.Case, o *world.Outcome) string {
+	if cl := violationClass(o); cl != "" {
+		return cl
+	}
+	if o.Extra != nil {
+		if rr, ok := o.Extra["race_report"].(string); ok && strings.Contains(rr, "/repo/") {
+			o.Detail = "data race reported by the race detector (reports do not replay by seed; the case does): " + firstLines(rr, 40)
+			return "data-race"
+		}
+	}
+	return ""
 }
 
 func firstLines(s string, n int) string {
